@@ -9,6 +9,7 @@ import Driver.Ops.Grp
 import Driver.Ops.Sec
 import Driver.Ops.Dis
 import Driver.Ops.Orb
+import Driver.Ops.MillerRound
 import Driver.Ops.Chunk
 import Driver.Ops.Codec
 import Driver.Ops.Sampling
@@ -32,6 +33,7 @@ def handlers : List (String × (List String → String)) := [
   ("sec", Sec.handle),
   ("dis", Dis.handle),
   ("orb", Orb.handle),
+  ("mround", MRound.handle),
   ("chunk", ChunkOp.handle),
   ("codec", Codec.handle),
   ("samp", Samp.handle)
